@@ -22,18 +22,18 @@ package vm
 //                     world replays natively with the real ed25519.
 
 //verif:property C02
-//verif:bound CHECKSIG: one arbitrary item below the three operands, key item 31..33 bytes, message item 31..33 bytes, signature item 63..65 bytes (open world) / honest 64-byte signature or 0..1 junk bytes (closed world), stack depth 2..4 (underflow included), runLimit any value in [0, 2^20]
-//verif:bound CHECKMULTISIG: stack = [k key/sig-shaped operands][m item][n item] with m and n items arbitrary strings of <= 1 byte (values 0..255), shapes (keys, sigs) = (1,1) (2,1) (2,2) (3,2) quick, (3,3) (4,2) (4,4) (5,3) (6,2) thorough, i.e. n <= 4 keys quick-and-thorough-together up to 6; key items 31..33 bytes, message 31..33 bytes, signatures as for CHECKSIG; runLimit in [0, 1024*(keys+sigs+4)] so that every n that fits the stack (and the first that does not) is executed
+//verif:bound CHECKSIG: one arbitrary item below the three operands, key item 31..33 arbitrary bytes (closed world: or the public key of an arbitrary seed), message item 31..33 bytes, signature item 63..65 bytes (open world) / honest 64-byte signature or 0..1 junk bytes (closed world), stack depth 2..4 (underflow included), runLimit any value in [0, 2^20]
+//verif:bound CHECKMULTISIG: stack = [k key/sig-shaped operands][m item][n item] with m and n items arbitrary strings of <= 1 byte (values 0..255), shapes (keys, sigs) = (1,1) (2,1) (2,2) with every n, (3,2) with n in 3..4 quick; (3,2) with every n, (3,3) (4,2) (4,4) (6,2) with n in keys..keys+1 thorough (closed world: up to (4,2)); key items 31..33 bytes, message 31..33 bytes, signatures as for CHECKSIG; runLimit in [0, 1024*(keys+2)-1] so that every n in 0..keys+1 is executed (n = keys+1 shifts every operand's role by one)
 //verif:assume hash functions are not involved at this level; ed25519.Verify: open world = uninterpreted predicate (functional consistency only); closed world = override verifC02Verify (true exactly on the harness' honest (pub, msg, Sign(priv,msg)) triples; NewKeyFromSeed/Sign are uninterpreted for the solver with the axiom Verify(pub(seed), msg, Sign(seed||pub(seed), msg)))
 //verif:assume verifC02And/verifC02Or are evaluated by the engine as a single term (same value as their Go bodies) so that the reference does not fork
 //verif:outside cryptographic strength of ed25519 (unforgeability); m and n items longer than one byte (values above 255 need more than 255*1024 gas and more stack than any bound here)
 //verif:override crypto/ed25519.Verify -> verifC02Verify
 //verif:obligation fn=VerifC02CheckSig args=3,0;2,0;4,0 nooverride=verifC02Verify validate=16
 //verif:obligation fn=VerifC02CheckSig args=3,1;4,1 validate=16
-//verif:obligation fn=VerifC02CheckMultiSig args=1,1,0;2,1,0;2,2,0;3,2,0 nooverride=verifC02Verify loops=400
-//verif:obligation fn=VerifC02CheckMultiSig args=1,1,1;2,1,1;2,2,1;3,2,1 loops=400 validate=16
-//verif:obligation fn=VerifC02CheckMultiSig args=3,3,0;4,2,0;4,4,0 nooverride=verifC02Verify loops=400 tier=thorough secs=1700
-//verif:obligation fn=VerifC02CheckMultiSig args=3,3,1;4,2,1;4,4,1;5,3,1;6,2,1 loops=400 tier=thorough secs=1700
+//verif:obligation fn=VerifC02CheckMultiSig args=1,1,0,0;2,1,0,0;2,2,0,0;3,2,3,0 nooverride=verifC02Verify secs=3000 timeout=120000
+//verif:obligation fn=VerifC02CheckMultiSig args=1,1,0,1;2,1,0,1;2,2,0,1;3,2,3,1 validate=16 secs=3000 timeout=120000
+//verif:obligation fn=VerifC02CheckMultiSig args=3,2,0,0;3,3,3,0;4,2,4,0;4,4,4,0;6,2,6,0 nooverride=verifC02Verify tier=thorough secs=3000 timeout=120000
+//verif:obligation fn=VerifC02CheckMultiSig args=3,2,0,1;3,3,3,1;4,2,4,1 tier=thorough secs=3000 timeout=120000
 
 import (
 	"bytes"
@@ -78,6 +78,25 @@ func verifC02SigItem(world int) []byte {
 	return verifBytes("sig.junk", 1)
 }
 
+// a key-shaped stack item. Closed world: the public key of an arbitrary seed (the
+// solver may choose the seed of a signer, which the native replay reproduces) or
+// arbitrary bytes
+func verifC02KeyItem(world int) []byte {
+	if world == 1 && verifBool("pk.derived") {
+		priv := ed25519.NewKeyFromSeed(verifBytesN("pk.seed", 32))
+		return []byte(priv[32:])
+	}
+	item := verifC02Shaped("pk", 31, 33)
+	if world == 1 {
+		// arbitrary key bytes are not a signer's public key in this world (that case is
+		// the derived branch above; the open world has no such restriction)
+		for _, t := range verifC02Honest {
+			verifAssume(!bytes.Equal(item, t.pk))
+		}
+	}
+	return item
+}
+
 func verifC02SmallInt(b []byte) int64 {
 	if len(b) == 0 {
 		return 0
@@ -106,7 +125,7 @@ func VerifC02CheckSig(depth int, world int) {
 		v.dataStack = append(v.dataStack, sig)
 	}
 	msg = verifC02Shaped("msg", 31, 33)
-	pk = verifC02Shaped("pk", 31, 33)
+	pk = verifC02KeyItem(world)
 	v.dataStack = append(v.dataStack, msg, pk)
 	r := verifI64("runLimit")
 	verifAssume(r >= 0 && r <= 1<<20)
@@ -164,7 +183,7 @@ func verifC02Exists(V [][]bool, si, ki int) bool {
 	return verifC02Or(verifC02And(V[si][ki], verifC02Exists(V, si+1, ki+1)), verifC02Exists(V, si, ki+1))
 }
 
-func VerifC02CheckMultiSig(nKeys int, nSigs int, world int) {
+func VerifC02CheckMultiSig(nKeys int, nSigs int, nLo int, world int) {
 	verifC02Honest = nil
 	v := &virtualMachine{context: &Context{VMVersion: 1}}
 	// bottom: one unrelated item, then signature-shaped, message-shaped, key-shaped operands
@@ -175,14 +194,15 @@ func VerifC02CheckMultiSig(nKeys int, nSigs int, world int) {
 	}
 	st = append(st, verifC02Shaped("msg", 31, 33))
 	for i := 0; i < nKeys; i++ {
-		st = append(st, verifC02Shaped("pk", 31, 33))
+		st = append(st, verifC02KeyItem(world))
 	}
 	mItem := verifBytes("m", 1)
 	nItem := verifBytes("n", 1)
 	st = append(st, mItem, nItem)
+	verifAssume(verifC02SmallInt(nItem) >= int64(nLo))
 	v.dataStack = append([][]byte{}, st...)
 	r := verifI64("runLimit")
-	verifAssume(r >= 0 && r <= int64(1024*(nKeys+nSigs+4)))
+	verifAssume(r >= 0 && r <= int64(1024*(nKeys+2)-1))
 	v.runLimit = r
 	v.program = []byte{byte(OP_CHECKMULTISIG)}
 
